@@ -80,9 +80,12 @@ class (identity, scalar, diagonal, index, pack, move-axis, ravel/reshape, rotati
 the transpose wrappers, lazy inverses, compositions and sums of any length, block row / diagonal / column — the
 operator `A.T` that `transposeOp` builds (the form compared with furax by the correspondence check) computes the
 adjoint of what `A` computes, for the standard inner product on vectors of the declared sizes.
-What remains assumed is only about the leaf classes the denotation does not interpret (`EnvAdj E`: the maps standing
-for dense einsum / Toeplitz / observation-matrix / opaque leaves come with their adjoints, Toeplitz ones are
-self-adjoint — C09 and C14 prove this for the two kernels that are modelled); dense leaves are excluded because
+What remains assumed is only about the leaves the denotation does not interpret (`EnvAdj E`: the maps standing
+for dense einsum / observation-matrix / opaque leaves and for Toeplitz leaves with BATCHED bands come with their
+adjoints, the Toeplitz ones are self-adjoint — C14 proves this for the einsum kernel); Toeplitz leaves with an
+un-batched band are interpreted by the verified kernel of C09 and their self-adjointness is a theorem
+(`ListSem.toeplitz_leaf_adjoint`, `ListSem.toeplitz_leaf_sym`), valid ones being `ListSem.toeplitzOK`; dense
+leaves are excluded because
 `op.T` builds a new dense leaf the environment cannot know (C14 covers them), and `DiagonalInverseOperator` must
 wrap a diagonal leaf (which is all the Python class accepts). -/
 theorem transpose_is_adjoint_closed (E : ListSem.Env) (hE : ListSem.EnvAdj E) (o t : Op) (hv : ListSem.ValidT o)
@@ -106,6 +109,15 @@ theorem transposeOp_denotes_adjoint (E : ListSem.Env) (hE : ListSem.EnvAdj E) (o
 
 /-- the hypothesis on the environment is satisfiable: every family of matrices (symmetric for Toeplitz leaves) -/
 theorem env_adjoint_inhabited : ListSem.EnvAdj ListSem.idEnv := ListSem.idEnv_adj
+
+/-- **no assumption at all** when every leaf is interpreted (no dense / observation-matrix / opaque leaf, Toeplitz
+leaves with un-batched bands only): `⟨A x, y⟩ = ⟨x, A.T y⟩` for every environment -/
+theorem transpose_is_adjoint_closed_noEnv (E : ListSem.Env) (o t : Op)
+    (hI : ListSem.AllLeaves (fun _ c p => ListSem.isEnvLeaf c p = false) o) (hv : ListSem.ValidT o)
+    (hw : o.WFT) (h : transposeOp o = .ok t) :
+    ∀ x y : List ℝ, x.length = (Op.inS o).size → y.length = (Op.outS o).size →
+      ListSem.dot (ListSem.den E o x) y = ListSem.dot x (ListSem.den E t y) :=
+  ListSem.transpose_is_adjoint_closed_noEnv E o t hI hv hw h
 
 /-- the framework is inhabited -/
 theorem framework_inhabited : Nonempty (AdjCore Unit Nat) := ⟨AdjCore.unitModel⟩
